@@ -84,10 +84,20 @@ fn f255v(x: i64) -> Field255 {
 struct Crafted {
     ps: Poplar1PublicShare,
     shares: Vec<Poplar1InputShare<32>>,
+    keys: [prio::vdaf::xof::Seed<16>; 2],
+    /// authenticators the correlated randomness was built for (inner levels)
+    k_inner: Vec<Field64>,
 }
 
 /// Build a report from public parts. `k` = authenticators used in the correlated randomness.
 fn craft(vdaf: &Pop, bits: usize, input: &[bool], st: &Strategy, ctx: &[u8], nonce: &[u8; 16], tape: &Tape) -> Crafted {
+    craft_k(vdaf, bits, input, st, ctx, nonce, tape, None)
+}
+
+/// As [`craft`]; `k_over = (level, k)` builds the correlated randomness of that inner level for the
+/// authenticator `k` instead of the tape's.
+#[allow(clippy::too_many_arguments)]
+fn craft_k(vdaf: &Pop, bits: usize, input: &[bool], st: &Strategy, ctx: &[u8], nonce: &[u8; 16], tape: &Tape, k_over: Option<(usize, Field64)>) -> Crafted {
     let k_inner: Vec<Field64> = (0..bits - 1).map(|l| Field64::from(u64::from_le_bytes(tape.array::<8>(40 + l as u64)) >> 1)).collect();
     let k_leaf = Field255::from(u64::from_le_bytes(tape.array::<8>(39)));
     let auth64 = |l: usize| match st.auth {
@@ -116,7 +126,10 @@ fn craft(vdaf: &Pop, bits: usize, input: &[bool], st: &Strategy, ctx: &[u8], non
         let a = abc_inner[0][3 * l] + abc_inner[1][3 * l];
         let b = abc_inner[0][3 * l + 1] + abc_inner[1][3 * l + 1];
         let c = abc_inner[0][3 * l + 2] + abc_inner[1][3 * l + 2];
-        let k = k_inner[l];
+        let k = match k_over {
+            Some((lv, kk)) if lv == l => kk,
+            _ => k_inner[l],
+        };
         let mut big_a = -(Field64::from(2) * a) + k;
         let mut big_b = if st.zero_b { Field64::from(0) } else { a * a + b - a * k + c };
         if let Some((lv, which, d)) = st.corr_delta {
@@ -161,7 +174,7 @@ fn craft(vdaf: &Pop, bits: usize, input: &[bool], st: &Strategy, ctx: &[u8], non
         b.extend(corr_leaf[a][1].get_encoded().unwrap());
         shares.push(Poplar1InputShare::<32>::get_decoded_with_param(&(vdaf, a), &b).expect("crafted input share must decode"));
     }
-    Crafted { ps, shares }
+    Crafted { ps, shares, keys, k_inner }
 }
 
 /// Sum of the two output shares as small integers (None = some entry is not 0/1-representable).
@@ -213,9 +226,126 @@ fn params_for(bits: usize, input: &[bool], all: bool) -> Vec<(usize, Vec<Vec<boo
     out
 }
 
+/// (d) A client that makes TWO candidates non-zero. Built from public parts only: an honest key pair,
+/// then one control-bit correction of the public share is flipped at level `j` (the sibling subtree of
+/// the input's path stops cancelling), and the data correction word of the queried level is solved —
+/// using the real evaluation as a black box, which is affine in that word — so that the values of the
+/// on-path candidate and of one candidate G of the broken subtree add up to one; the correlated
+/// randomness is built for the sum of their authenticators. Every other listed candidate is zero.
+/// A sound sketch (independent coefficient per candidate) rejects; a sketch whose coefficients repeat
+/// with some period accepts when the two candidates are that far apart, so the distance is swept.
+fn two_nonzero(run: &Run, tapes: &[(String, Tape)], q: bool) {
+    let idpf = Idpf::<Poplar1IdpfValue<Field64>, Poplar1IdpfValue<Field255>>::new((), ());
+    let honest = |bits: usize| Strategy { name: "two non-zero candidates".into(), beta: vec![1; bits], auth: AuthKind::K, corr_delta: None, zero_b: false };
+    let eval_sum = |ps: &Poplar1PublicShare, keys: &[prio::vdaf::xof::Seed<16>; 2], node: &[bool], ctx: &[u8], nonce: &[u8; 16]| -> Option<[Field64; 2]> {
+        let mut acc = [Field64::from(0); 2];
+        for a in 0..2 {
+            let o = idpf.eval(a, ps, &keys[a], &IdpfInput::from_bools(node), ctx, nonce, &mut prio::idpf::NoCache::new()).ok()?;
+            let v = match o {
+                prio::idpf::IdpfOutputShare::Inner(v) => v,
+                _ => return None,
+            };
+            let b = v.get_encoded().ok()?;
+            acc[0] += Field64::get_decoded(&b[..8]).ok()?;
+            acc[1] += Field64::get_decoded(&b[8..16]).ok()?;
+        }
+        Some(acc)
+    };
+    let bits = 9usize;
+    let vdaf = Pop::new(bits);
+    let level = 7usize; // inner level with 256 nodes
+    let ctrl_len = (2 * bits).div_ceil(8);
+    let w_off = ctrl_len + 16 * bits + 16 * level; // data coordinate of the level's value correction word
+    let mut items = vec![];
+    let dists: Vec<usize> = if q { vec![1, 2, 32, 63, 64, 65, 128] } else { (1..=128).collect() };
+    for (ti, _) in tapes.iter().enumerate() {
+        for j in [0usize, 1] {
+            for &d in &dists {
+                if j == 1 && d > 64 {
+                    continue;
+                }
+                items.push((ti, j, d));
+            }
+        }
+    }
+    par::for_each(items.len() as u64, |ix| {
+        let (ti, j, dist) = items[ix as usize];
+        let (tn, tape) = &tapes[ti];
+        let input = vec![false; bits];
+        let ctx: Vec<u8> = tape.bytes(1, 5);
+        let nonce: [u8; 16] = tape.array(2);
+        let vk: [u8; 32] = tape.array(3);
+        let rep0 = craft(&vdaf, bits, &input, &honest(bits), &ctx, &nonce, tape);
+        let mut ps_bytes = rep0.ps.get_encoded().unwrap();
+        let bit = 2 * j + 1; // correction of the right child's control bit at level j (the path goes left)
+        ps_bytes[bit / 8] ^= 1 << (bit % 8);
+        let on: Vec<bool> = input[..=level].to_vec();
+        // candidates G in the broken subtree: prefix input[..j] + [1] + anything
+        let mut built = None;
+        for g_tail in 0..8u64 {
+            let mut g: Vec<bool> = input[..j].to_vec();
+            g.push(true);
+            g.extend(bits_of(g_tail, level - j));
+            let at = |delta: u64| -> Option<([Field64; 2], [Field64; 2], Vec<u8>)> {
+                let mut b = ps_bytes.clone();
+                let w = Field64::get_decoded(&b[w_off..w_off + 8]).ok()? + Field64::from(delta);
+                b[w_off..w_off + 8].copy_from_slice(&w.get_encoded().ok()?);
+                let ps = Poplar1PublicShare::get_decoded_with_param(&vdaf, &b).ok()?;
+                Some((eval_sum(&ps, &rep0.keys, &on, &ctx, &nonce)?, eval_sum(&ps, &rep0.keys, &g, &ctx, &nonce)?, b))
+            };
+            let (Some((on0, g0, _)), Some((on1, g1, _))) = (at(0), at(1)) else { continue };
+            let slope = (on1[0] - on0[0]) + (g1[0] - g0[0]);
+            if slope == Field64::from(0) || g0[0] == Field64::from(0) {
+                continue;
+            }
+            let delta = (Field64::from(1) - on0[0] - g0[0]) * slope.inv();
+            let Some((onf, gf, bytes)) = at(u64::from(delta)) else { continue };
+            if onf[0] + gf[0] != Field64::from(1) || gf[0] == Field64::from(0) {
+                continue;
+            }
+            built = Some((g, onf, gf, bytes));
+            break;
+        }
+        let Some((g, onf, gf, bytes)) = built else {
+            run.count("two_nonzero_not_constructible", 1);
+            return;
+        };
+        // fillers: the dist-1 nodes following the on-path node (same side of level j, off the path: zero)
+        let mut set: Vec<Vec<bool>> = vec![on.clone()];
+        for f in 1..dist as u64 {
+            set.push(bits_of(f, level + 1));
+        }
+        set.push(g.clone());
+        let ps = Poplar1PublicShare::get_decoded_with_param(&vdaf, &bytes).unwrap();
+        if set[1..set.len() - 1].iter().any(|f| eval_sum(&ps, &rep0.keys, f, &ctx, &nonce) != Some([Field64::from(0); 2])) {
+            run.count("two_nonzero_not_constructible", 1);
+            return;
+        }
+        let rep = craft_k(&vdaf, bits, &input, &honest(bits), &ctx, &nonce, tape, Some((level, onf[1] + gf[1])));
+        let ap = Poplar1AggregationParam::try_from_prefixes(set.iter().map(|p| IdpfInput::from_bools(p)).collect()).unwrap();
+        run.count("evaluations", 1);
+        run.count("two_nonzero_reports", 1);
+        match verify_report::<Pop, 32>(&vdaf, &vk, &ctx, &ap, &nonce, &ps, &rep.shares, &VerifyOpts::wire()) {
+            Ok((_, tr)) => {
+                let sum = out_sum(false, &tr.output_shares);
+                if !valid_output(&sum) {
+                    run.fail(&format!("d/two_nonzero/flip_level={j}/distance={dist}"), &format!("Poplar1(bits={bits}): a report whose candidates #0 and #{dist} of {} at level {level} are both non-zero (values {} and {}, summing to one; control bit flipped at level {j}) was accepted by both aggregators (tape {tn})", set.len(), u64::from(onf[0]), u64::from(gf[0])), json!({"layer": "d", "bits": bits, "level": level, "flip_level": j, "distance": dist, "tape": tn}));
+                }
+            }
+            Err(Failure { stage, msg }) => {
+                if let Stage::Panic(w) = &stage {
+                    run.fail("d/two_nonzero/panic", &format!("Poplar1(bits={bits}): two-candidate report made {w} panic: {msg}"), json!({"layer": "d", "flip_level": j, "distance": dist, "tape": tn}));
+                }
+            }
+        }
+        run.distinct(fnv(format!("d/{j}/{dist}/{tn}").as_bytes()));
+        let _ = rep0.k_inner.len();
+    });
+}
+
 fn main() {
     let run = Run::from_args("C04", Level::FaultEnumeration);
-    run.rule("(a) malicious client from public parts: programmed data beta in {0,1,2,-1,3} at one level (others honest), authenticator in {k*beta, k, 0, k+1}, correlated randomness honest for the cheating value or perturbed (A or B at one level), x inputs x every aggregation parameter (bits<=3; on-path/sibling sets beyond) x key tapes; (b) honest reports: every byte of public share, both input shares, both rounds of verifier shares and verifier messages x alteration alphabet; oracle: both finish => outputs sum to zero-vector or one-hot 1; cheating strategies rejected whenever an on-path candidate is queried. distinct = (strategy, bits, input, parameter, tape) and distinct alterations; non-trivial = reached verify_init at both aggregators");
+    run.rule("(a) malicious client from public parts: programmed data beta in {0,1,2,-1,3} at one level (others honest), authenticator in {k*beta, k, 0, k+1}, correlated randomness honest for the cheating value or perturbed (A or B at one level), x inputs x every aggregation parameter (bits<=3; on-path/sibling sets beyond) x key tapes; (d) two non-zero candidates adding up to one (control-bit correction flipped at level 0/1, data correction word of level 7 solved from black-box evaluations, correlated randomness for the summed authenticators), placed 1..128 positions apart in the candidate list; (b) honest reports: every byte of public share, both input shares, both rounds of verifier shares and verifier messages x alteration alphabet; oracle: both finish => outputs sum to zero-vector or one-hot 1; cheating strategies rejected whenever an on-path candidate is queried. distinct = (strategy, bits, input, parameter, tape) and distinct alterations; non-trivial = reached verify_init at both aggregators");
     run.assume("soundness over the verification key is a fixed alphabet of keys (a cheating report passing by chance has probability <= 2/2^64 per key at inner levels)");
     let q = run.quick();
     let tapes: Vec<(String, Tape)> = tape_alphabet(run.seed, if q { 2 } else { 8 }).into_iter().skip(2).collect();
@@ -321,11 +451,12 @@ fn main() {
                 let level = (0..bits).find(|l| st.beta[*l] != 1).unwrap_or(0);
                 let on = input[..=level].to_vec();
                 let ap = Poplar1AggregationParam::try_from_prefixes(vec![IdpfInput::from_bools(&on)]).unwrap();
-                let kinds: [(&str, usize, usize); 6] = [("verifier_share", 0, 0), ("verifier_share", 0, 1), ("verifier_message", 0, 0), ("verifier_share", 1, 0), ("verifier_share", 1, 1), ("verifier_message", 1, 0)];
+                const BOTH: usize = usize::MAX; // the same alteration applied to both aggregators' shares
+                let kinds: [(&str, usize, usize); 8] = [("verifier_share", 0, 0), ("verifier_share", 0, 1), ("verifier_share", 0, BOTH), ("verifier_message", 0, 0), ("verifier_share", 1, 0), ("verifier_share", 1, 1), ("verifier_share", 1, BOTH), ("verifier_message", 1, 0)];
                 for (k, r, a) in kinds {
                     for how in ["empty", "drop_last_element", "zero_fill"] {
                         let tam = |kind: &str, round: usize, agg: usize, bytes: &[u8]| -> Option<Vec<u8>> {
-                            if kind == k && round == r && (agg == a || kind == "verifier_message") {
+                            if kind == k && round == r && (agg == a || a == BOTH || kind == "verifier_message") {
                                 let esz = if level == bits - 1 { 32 } else { 8 };
                                 Some(match how {
                                     "empty" => vec![],
@@ -341,8 +472,9 @@ fn main() {
                         if let Ok((_, tr)) = verify_report::<Pop, 32>(&vdaf, &vk, &ctx, &ap, &nonce, &rep.ps, &rep.shares, &VerifyOpts::tamper(&tam)) {
                             let sum = out_sum(level == bits - 1, &tr.output_shares);
                             if !valid_output(&sum) {
-                                run.fail(&format!("c/bits={bits}/invalid_output/{k}/{how}"), &format!("Poplar1(bits={bits}): cheating strategy '{}' on input {:?} combined with {k}[round {r}, agg {a}] {how}: both aggregators finished at level {level} with output sum {:?}", st.name, input, sum), json!({"layer": "c", "bits": bits, "input": input, "strategy": st.name, "level": level, "message": k, "round": r, "agg": a, "how": how}));
-                                return;
+                                let who = if a == BOTH { "both".to_string() } else { a.to_string() };
+                                run.fail(&format!("c/invalid_output/{k}/round={r}/agg={who}/{how}/bits={bits}"), &format!("Poplar1(bits={bits}): cheating strategy '{}' on input {:?} combined with {k}[round {r}, agg {who}] {how}: both aggregators finished at level {level} with output sum {:?}", st.name, input, sum), json!({"layer": "c", "bits": bits, "input": input, "strategy": st.name, "level": level, "message": k, "round": r, "agg": who, "how": how}));
+                                continue;
                             }
                         }
                     }
@@ -377,6 +509,10 @@ fn main() {
             }
         }
     }
+
+    // ---------------- (d) two non-zero candidates
+    two_nonzero(&run, &tapes, q);
+    eprintln!("[{:.1}s] two non-zero candidates", run.elapsed());
 
     // ---------------- (b) tampering after honest sharding
     for (bits, level) in [(2usize, 0usize), (2, 1), (3, 1), (3, 2), (8, 4), (8, 7)] {
